@@ -303,6 +303,25 @@ def build_jobs(ck):
                 j = Job(name, mod, ['-q'] + extra + ['-T', '@train.txt', '@in.txt'], files, alts[0], tag='%s -T line boundary %r' % (name, brk))
                 j.alternatives = alts
                 jobs.append(j)
+        # a text whose first character is U+FEFF (the mark some editors write at the beginning of a file): for the functions it
+        # is a character like any other, so it is one for the commands too - in the input file, the train file and the gold file alike
+        bl = ['\ufeff' + plines[0]] + list(plines[1:])
+
+        def ftbom(bl=bl):
+            return fmt(tp.segment((l + '\n' for l in bl)))
+        jobs.append(Job('tp', 'wordseg.algos.tp', ['-q', '@in.txt'], {'in.txt': fmt(bl)}, expect(ftbom), tag='tp first character U+FEFF'))
+
+        def ftbom2(bl=bl):
+            return fmt(tp.segment((l + '\n' for l in bl), train_text=(l + '\n' for l in bl)))
+        jobs.append(Job('tp', 'wordseg.algos.tp', ['-q', '-T', '@train.txt', '@in.txt'], {'in.txt': fmt(bl), 'train.txt': fmt(bl)}, expect(ftbom2),
+                        tag='tp -T first character U+FEFF'))
+        bt, bg = ['\ufeff' + text[0]] + list(text[1:]), ['\ufeff' + gold[0]] + list(gold[1:])
+
+        def febom(bt=bt, bg=bg):
+            r = eval_mod.evaluate(bt, bg)
+            return fmt('{}\t{}'.format(k, '%.4g' % v if v is not None else 'None') for k, v in r.items())
+        jobs.append(Job('eval', 'wordseg.evaluate', ['-q', '@in.txt', '@gold.txt'], {'in.txt': fmt(bt), 'gold.txt': fmt(bg)}, expect(febom),
+                        tag='eval first character U+FEFF'))
         # ---- puddle
         nf = rng.randint(1, len(plines) + 1)
         w = rng.randint(1, 3)
